@@ -11,6 +11,11 @@
 (*      100 + cp        any other character with code point cp             *)
 (*      2000000 + cp    a non-ASCII numeric character (Unicode N*, e.g.    *)
 (*                      Arabic-Indic digits, superscripts, CJK numerals)   *)
+(*      1500000         an IP address token (only in runs where the        *)
+(*                      address stage is on: the harness projects every    *)
+(*                      address token of input and output to this one      *)
+(*                      code, so the clauses below speak about the text    *)
+(*                      OUTSIDE addresses; to R it is one more non-digit)  *)
 (* so "unchanged" is decided here, character by character.                 *)
 (*                                                                         *)
 (* R (what C11 states, nothing more)                                       *)
